@@ -253,6 +253,23 @@ def records(drv):
     r2 = copy.deepcopy(rec); r2[0]["got"] = [[r2[0]["got"][0][0]]]                    # the hole dropped: filled
     ok, why = records_accept("AssembleTrace", "AssembleTrace.cfg", "assemble_trace.ndjson", [json.dumps(x) for x in r2])
     report("assemble", "hole dropped", not ok, why)
+    # SplitRing
+    vec = [{"ring": [0, 1, 2, 0, 3], "hm": [0]}, {"ring": [0, 1, 2], "hm": []}, {"ring": [0, 1, 2, 0, 4, 3], "hm": [0]}]
+    p = vlib.run([drv, "split-replay"], input="\n".join(json.dumps(x) for x in vec) + "\n", check=True)
+    lines = [x for x in p.stdout.splitlines() if x.startswith("{")]
+    ok, _ = records_accept("SplitRingTrace", "SplitRingTrace.cfg", "split_trace.ndjson", lines)
+    report("splitring", "clean records accepted", ok)
+    rec = [json.loads(x) for x in lines]
+    k = [i for i, r in enumerate(rec) if len(r["o"]) >= 1 and len(r["i"]) >= 1][0]
+    r2 = copy.deepcopy(rec); r2[k]["o"], r2[k]["i"] = r2[k]["i"], r2[k]["o"]
+    ok, why = records_accept("SplitRingTrace", "SplitRingTrace.cfg", "split_trace.ndjson", [json.dumps(x) for x in r2])
+    report("splitring", "outer and inner loops exchanged", not ok, why)
+    r2 = copy.deepcopy(rec); r2[0]["o"] = [r2[0]["ring"]]; r2[0]["i"] = []; r2[0]["p"] = []
+    ok, why = records_accept("SplitRingTrace", "SplitRingTrace.cfg", "split_trace.ndjson", [json.dumps(x) for x in r2])
+    report("splitring", "ring returned unsplit", not ok, why)
+    r2 = copy.deepcopy(rec); r2[1]["out"] = "panic: partial rings remaining on stack"
+    ok, why = records_accept("SplitRingTrace", "SplitRingTrace.cfg", "split_trace.ndjson", [json.dumps(x) for x in r2])
+    report("splitring", "recorded panic", not ok, why)
 
 
 def main():
